@@ -28,6 +28,7 @@ from weakref import WeakKeyDictionary
 from spyne import ProtocolContext, EventManager
 from spyne.const import DEFAULT_LOCALE
 from spyne.model import Array
+from spyne.model import ComplexModelBase
 from spyne.error import ResourceNotFoundError
 from spyne.util import DefaultAttrDict
 from spyne.util.six import string_types
@@ -197,6 +198,12 @@ class ProtocolMixin(object):
         if issubclass(cls, Array) and issubclass(sub, Array):
             (cmember,) = cls._type_info.values()
             (smember,) = sub._type_info.values()
+            if not issubclass(cmember, ComplexModelBase):
+                # items of a simple type are read as what they are declared
+                # to be: an integer is not a decimal, a date not a datetime.
+                return pcls.issubclass(smember, cmember) \
+                                         and pcls.issubclass(cmember, smember)
+
             return pcls.is_substitutable(smember, cmember)
 
         return True
